@@ -181,7 +181,22 @@ def dyn_key(ty):
     return ty.strip()
 
 
+def peel(o):
+    """strip refs, casts and pure-deref places from an origin"""
+    n = 0
+    while o is not None and n < 30:
+        n += 1
+        if o[0] in ("ref", "cast"):
+            o = o[1]
+        elif o[0] == "place" and all(pr == "deref" for pr in o[2]):
+            o = o[1]
+        else:
+            break
+    return o
+
+
 def closure_of_origin(o):
+    o = peel(o)
     seen = 0
     while o is not None and seen < 20:
         seen += 1
@@ -245,7 +260,9 @@ def const_str(op):
     c = op.get("const")
     if c is None:
         return None
-    m = re.match(r'^const "(.*)"$', c, re.S)
+    if op.get("ty") not in ("&str", "&'static str", None):
+        return None
+    m = re.match(r'^(?:const )?"(.*)"$', c, re.S)
     if not m:
         return None
     return rust_unescape(m.group(1))
@@ -700,6 +717,13 @@ def fn_uses(f, l):
     return out
 
 
+TRANSPARENT_CALLEES = {
+    "std::ops::Deref::deref", "std::ops::DerefMut::deref_mut", "std::convert::AsRef::as_ref", "std::borrow::Borrow::borrow",
+    "std::string::String::as_str", "std::clone::Clone::clone", "std::option::Option::<T>::as_ref", "std::option::Option::<T>::unwrap",
+    "std::option::Option::<T>::as_mut", "std::vec::Vec::<T, A>::as_slice",
+}
+
+
 def describe_origin(f, o, depth=0):
     """stable human readable description of an origin (no local numbers, no lines)"""
     if depth > 12 or o is None:
@@ -709,6 +733,9 @@ def describe_origin(f, o, depth=0):
         return "param:" + (f.local_name(o[1]) or str(o[1]))
     if k == "call":
         t = o[1]
+        c = t.get("callee") or ""
+        if c in TRANSPARENT_CALLEES and t["args"]:
+            return describe_origin(f, f.origin_op(t["args"][0]), depth + 1)
         return "call:" + (t.get("resolved") or t.get("callee") or "indirect")
     if k == "const":
         return o[1].get("const", "const")
